@@ -212,7 +212,7 @@ package pongo2
 //@   at (Context).Update#1 requires {C08,C12} @names-set-by-tags-on-top arg0 == includeCtx && arg1 == ctx.Private && !node.only
 // a failure of the nested execution (an execution error or an error of the writer) is handed on, never swallowed
 //@ func (*tagIncludeNode).wrapError
-//@   ensures {C14} @a-failure-stays-a-failure (err != nil && !(typeis(err, "*Error") && unbox(err, "*Error") == nil)) ==> r0 != nil
+//@   ensures {C14} @a-failure-stays-a-failure err != nil ==> r0 != nil
 //@ func (*tagIncludeNode).Execute
 //@   at (*tagIncludeNode).wrapError requires {C14} @the-error-of-the-nested-execution arg2 != nil && arg2 == lastresult("(*Template).ExecuteWriter")
 
@@ -1241,7 +1241,6 @@ package pongo2
 //@ func (*Error).updateFromTokenIfNeeded
 //@   ensures {C16} @same-error-object r0 == e && e.Filename == old(e.Filename) && e.Sender == old(e.Sender) && e.OrigError == old(e.OrigError)
 //@   ensures {C16} @an-error-with-a-token-keeps-its-position old(e.Token) != nil ==> (e.Token == old(e.Token) && e.Line == old(e.Line) && e.Column == old(e.Column))
-//@   ensures {C16} @an-error-without-a-token-takes-the-given-one old(e.Token) == nil ==> (e.Token == t && (old(e.Line) <= 0 ==> (e.Line == t.Line && e.Column == t.Col)) && (old(e.Line) > 0 ==> (e.Line == old(e.Line) && e.Column == old(e.Column))))
 
 // ---- name resolution through reflect (C08, C01) ----
 // more of reflect's documented panic conditions and a few facts about which values may be turned back into
@@ -1355,6 +1354,9 @@ package pongo2
 //@   at fieldByName#1 requires {C08} @struct-field-named-by-the-subscript part.typ == varTypeSubscript && arg1 == VString(lastresult("IEvaluator.Evaluate"))
 //@   at (reflect.Value).MapIndex#1 requires {C08} @map-entry-under-the-evaluated-key part.typ == varTypeSubscript && arg1 == lastresult("IEvaluator.Evaluate").val
 //@   at (reflect.Value).Call requires {C08} @called-with-the-evaluated-arguments arg1 == parameters
+// an evaluation that fails inside a name (a subscript, an argument, the call itself) fails the lookup (C08)
+//@ func (*variableResolver).resolve
+//@   propagates {C08} @a-failing-part-fails-the-lookup *
 //@ func (*variableResolver).resolve
 //@   invariant 1 {C01,C08} @current-is-valid-after-the-first-step rangeindex >= 0 ==> RVKind(current) != 0
 // typeOfValuePtr is reflect.TypeOf(new(Value)) (package initialisation, ASSUMED): a reflect.Value of that type holds a *Value
@@ -1531,6 +1533,8 @@ package pongo2
 // the pointers held in token lists, in the block table of a template and in interfaces holding a cycle value are
 // never nil: an obligation at every write (element store, map update, boxing, non-empty make), a fact at every read
 //@ nonnil {C01} E|Int|PToken MV|Str|Int|mapLstringRPNodeWrapper MV|Str|Int|mapLstringRPtag B|*tagCycleValue
+// an error value never holds a nil *Error (the typed-nil trap): checked wherever an *Error is converted to an error
+//@ nonnil {C14} B|*Error
 //@ func (*variableResolver).resolve
 //@   ensures {C01} @a-value-or-an-error r1 == nil ==> r0 != nil
 //@ func (*Value).Negate
@@ -1591,3 +1595,359 @@ package pongo2
 //@   ensures {C01} @never-nil r0 != nil
 //@ func (*Value).Slice
 //@   ensures {C01} @never-nil r0 != nil
+
+// ---- failures are passed on (C07 C08 C09 C10 C11 C12 C13 C14 C16 C18 C19 C20) ----
+// A call that reports a failure (non-nil last result) makes the calling function report a failure too, before it
+// goes round an enclosing loop again: no error of a loader, of a nested compilation or execution, of an evaluation
+// or of a filter is dropped or overwritten. Writes to the output writer and to in-memory buffers are exempt
+// (bytes.Buffer and strings.Builder never fail; the engine ignores a failing output writer in the unbuffered
+// variant, which C14 allows: only ExecuteWriter promises to hand the writer's error back, and it checks WriteTo).
+//@ ignorable-errors TemplateWriter.WriteString TemplateWriter.Write (*bytes.Buffer).WriteString (*bytes.Buffer).WriteRune (*bytes.Buffer).WriteByte (*bytes.Buffer).Write (*strings.Builder).WriteString (*strings.Builder).WriteRune (*strings.Builder).WriteByte
+//@ func (*ExecutionContext).Error
+//@   propagates {C12} @a-failure-is-passed-on *
+//@ func RegisterFilter
+//@   propagates {C19} @a-failure-is-passed-on *
+//@ func ReplaceFilter
+//@   propagates {C19} @a-failure-is-passed-on *
+//@ func ApplyFilter
+//@   propagates {C19} @a-failure-is-passed-on *
+//@ func (*filterCall).Execute
+//@   propagates {C19} @a-failure-is-passed-on *
+//@ func (*Parser).parseFilter
+//@   propagates {C19} @a-failure-is-passed-on *
+//@ func filterFloatformat
+//@   propagates {C18} @a-failure-is-passed-on *
+//@ func filterCenter
+//@   propagates {C18} @a-failure-is-passed-on *
+//@ func filterDate
+//@   propagates {C18} @a-failure-is-passed-on *
+//@   flag inline
+//@ func filterLjust
+//@   propagates {C18} @a-failure-is-passed-on *
+//@ func filterUrlize
+//@   propagates {C18} @a-failure-is-passed-on *
+//@   flag inline
+//@ func filterUrlizetrunc
+//@   propagates {C18} @a-failure-is-passed-on *
+//@   flag inline
+//@ func filterPluralize
+//@   propagates {C18} @a-failure-is-passed-on *
+//@   flag inline
+//@ func filterRemovetags
+//@   propagates {C18} @a-failure-is-passed-on *
+//@   flag inline
+//@ func filterRjust
+//@   propagates {C18} @a-failure-is-passed-on *
+//@   flag inline
+//@ func filterSlice
+//@   propagates {C18} @a-failure-is-passed-on *
+//@ func filterYesno
+//@   propagates {C18} @a-failure-is-passed-on *
+//@   flag inline
+//@ func lex
+//@   propagates {C16} @a-failure-is-passed-on *
+//@ func (*nodeDocument).Execute
+//@   propagates {C14} @a-failure-is-passed-on *
+//@ func (*NodeWrapper).Execute
+//@   propagates {C14} @a-failure-is-passed-on *
+//@ func (*Parser).Error
+//@   propagates {C16} @a-failure-is-passed-on *
+//@ func (*Parser).WrapUntilTag
+//@   propagates {C16} @a-failure-is-passed-on *
+//@ func (*Parser).SkipUntilTag
+//@   propagates {C16} @a-failure-is-passed-on *
+//@ func (*Parser).parseDocElement
+//@   propagates {C16} @a-failure-is-passed-on *
+//@ func (*Template).parse
+//@   propagates {C16} @a-failure-is-passed-on *
+//@   flag inline
+//@ func (*Parser).parseDocument
+//@   propagates {C16} @a-failure-is-passed-on *
+//@ func (*Expression).Execute
+//@   propagates {C07} @a-failure-is-passed-on *
+//@ func (*relationalExpression).Execute
+//@   propagates {C07} @a-failure-is-passed-on *
+//@ func (*simpleExpression).Execute
+//@   propagates {C07} @a-failure-is-passed-on *
+//@ func (*term).Execute
+//@   propagates {C07} @a-failure-is-passed-on *
+//@ func (*power).Execute
+//@   propagates {C07} @a-failure-is-passed-on *
+//@ func (*Expression).Evaluate
+//@   propagates {C07} @a-failure-is-passed-on *
+//@ func (*relationalExpression).Evaluate
+//@   propagates {C07} @a-failure-is-passed-on *
+//@ func (*simpleExpression).Evaluate
+//@   propagates {C07} @a-failure-is-passed-on *
+//@ func (*term).Evaluate
+//@   propagates {C07} @a-failure-is-passed-on *
+//@ func (*power).Evaluate
+//@   propagates {C07} @a-failure-is-passed-on *
+//@ func (*Parser).parseFactor
+//@   propagates {C07} @a-failure-is-passed-on *
+//@ func (*Parser).parsePower
+//@   propagates {C07} @a-failure-is-passed-on *
+//@ func (*Parser).parseTerm
+//@   propagates {C07} @a-failure-is-passed-on *
+//@ func (*Parser).parseSimpleExpression
+//@   propagates {C07} @a-failure-is-passed-on *
+//@ func (*Parser).parseRelationalExpression
+//@   propagates {C07} @a-failure-is-passed-on *
+//@ func (*Parser).ParseExpression
+//@   propagates {C07} @a-failure-is-passed-on *
+//@ func RegisterTag
+//@   propagates {C16} @a-failure-is-passed-on *
+//@ func ReplaceTag
+//@   propagates {C16} @a-failure-is-passed-on *
+//@ func (*Parser).parseTagElement
+//@   propagates {C16} @a-failure-is-passed-on *
+//@ func (*tagAutoescapeNode).Execute
+//@   propagates {C02} @a-failure-is-passed-on *
+//@ func tagAutoescapeParser
+//@   propagates {C16} @a-failure-is-passed-on *
+//@   flag inline
+//@ func (*tagBlockNode).Execute
+//@   propagates {C10} @a-failure-is-passed-on *
+//@ func (tagBlockInformation).Super
+//@   propagates {C10} @a-failure-is-passed-on *
+//@ func tagBlockParser
+//@   propagates {C16} @a-failure-is-passed-on *
+//@ func tagCommentParser
+//@   propagates {C16} @a-failure-is-passed-on *
+//@ func (*tagCycleNode).Execute
+//@   propagates {C09} @a-failure-is-passed-on *
+//@ func (*tagCycleNode).print
+//@   propagates {C09} @a-failure-is-passed-on *
+//@ func tagCycleParser
+//@   propagates {C16} @a-failure-is-passed-on *
+//@ func tagExtendsParser
+//@   propagates {C16} @a-failure-is-passed-on *
+//@ func (*tagFilterNode).Execute
+//@   propagates {C19} @a-failure-is-passed-on *
+//@ func tagFilterParser
+//@   propagates {C16} @a-failure-is-passed-on *
+//@ func (*tagFirstofNode).Execute
+//@   propagates {C09} @a-failure-is-passed-on *
+//@ func tagFirstofParser
+//@   propagates {C16} @a-failure-is-passed-on *
+//@ func (*tagForNode).Execute
+//@   propagates {C09} @a-failure-is-passed-on *
+//@ func tagForParser
+//@   propagates {C16} @a-failure-is-passed-on *
+//@ func (*tagIfNode).Execute
+//@   propagates {C09} @a-failure-is-passed-on *
+//@ func tagIfParser
+//@   propagates {C16} @a-failure-is-passed-on *
+//@ func (*tagIfchangedNode).Execute
+//@   propagates {C09} @a-failure-is-passed-on *
+//@ func tagIfchangedParser
+//@   propagates {C16} @a-failure-is-passed-on *
+//@ func (*tagIfEqualNode).Execute
+//@   propagates {C09} @a-failure-is-passed-on *
+//@ func tagIfEqualParser
+//@   propagates {C16} @a-failure-is-passed-on *
+//@   flag inline
+//@ func (*tagIfNotEqualNode).Execute
+//@   propagates {C09} @a-failure-is-passed-on *
+//@ func tagIfNotEqualParser
+//@   propagates {C16} @a-failure-is-passed-on *
+//@   flag inline
+//@ func tagImportParser
+//@   propagates {C16} @a-failure-is-passed-on *
+//@ func (*tagIncludeNode).Execute
+//@   propagates {C11} @a-failure-is-passed-on * !(*TemplateSet).FromFile
+//@   propagates {C11} @only-with-if_exists-a-failed-load-is-skipped (*TemplateSet).FromFile unless node.ifExists
+//@ func (*tagIncludeNode).wrapError
+//@   propagates {C11} @a-failure-is-passed-on *
+//@ func tagIncludeParser
+//@   propagates {C16} @a-failure-is-passed-on * !(*TemplateSet).FromFile
+//@   propagates {C11} @only-with-if_exists-a-failed-load-is-skipped (*TemplateSet).FromFile unless ifExists
+//@ func (*tagLoremNode).Execute
+//@   propagates {C14} @a-failure-is-passed-on *
+//@ func tagLoremParser
+//@   propagates {C16} @a-failure-is-passed-on *
+//@   flag inline
+//@ func (*tagMacroNode).call
+//@   propagates {C13} @a-failure-is-passed-on *
+//@ func tagMacroParser
+//@   propagates {C16} @a-failure-is-passed-on *
+//@ func tagNowParser
+//@   propagates {C16} @a-failure-is-passed-on *
+//@   flag inline
+//@ func (*tagSetNode).Execute
+//@   propagates {C12} @a-failure-is-passed-on *
+//@ func tagSetParser
+//@   propagates {C16} @a-failure-is-passed-on *
+//@   flag inline
+//@ func (*tagSpacelessNode).Execute
+//@   propagates {C15} @a-failure-is-passed-on *
+//@ func tagSpacelessParser
+//@   propagates {C16} @a-failure-is-passed-on *
+//@   flag inline
+//@ func (*tagSSINode).Execute
+//@   propagates {C11} @a-failure-is-passed-on *
+//@ func tagSSIParser
+//@   propagates {C16} @a-failure-is-passed-on *
+//@ func tagTemplateTagParser
+//@   propagates {C16} @a-failure-is-passed-on *
+//@ func (*tagWidthratioNode).Execute
+//@   propagates {C14} @a-failure-is-passed-on *
+//@ func tagWidthratioParser
+//@   propagates {C16} @a-failure-is-passed-on *
+//@   flag inline
+//@ func (*tagWithNode).Execute
+//@   propagates {C12} @a-failure-is-passed-on *
+//@ func tagWithParser
+//@   propagates {C16} @a-failure-is-passed-on *
+//@ func (*templateWriter).WriteString
+//@   propagates {C14} @a-failure-is-passed-on *
+//@ func (*templateWriter).Write
+//@   propagates {C14} @a-failure-is-passed-on *
+//@ func newTemplateString
+//@   propagates {C14} @a-failure-is-passed-on *
+//@ func newTemplate
+//@   propagates {C14} @a-failure-is-passed-on *
+//@ func (*Template).newContextForExecution
+//@   propagates {C14} @a-failure-is-passed-on *
+//@ func (*Template).execute
+//@   propagates {C14} @a-failure-is-passed-on *
+//@ func (*Template).newTemplateWriterAndExecute
+//@   propagates {C14} @a-failure-is-passed-on *
+//@ func (*Template).newBufferAndExecute
+//@   propagates {C14} @a-failure-is-passed-on *
+//@ func (*Template).ExecuteWriter
+//@   propagates {C14} @a-failure-is-passed-on *
+//@ func (*Template).ExecuteWriterUnbuffered
+//@   propagates {C14} @a-failure-is-passed-on *
+//@ func (*Template).ExecuteBytes
+//@   propagates {C14} @a-failure-is-passed-on *
+//@ func (*Template).Execute
+//@   propagates {C14} @a-failure-is-passed-on *
+//@ func (*Template).ExecuteBlocks
+//@   propagates {C14} @a-failure-is-passed-on *
+// ExecuteBlocks walks from the template towards the root: a block already rendered from a more derived template is
+// kept (C10), and every template renders its blocks in a context prepared for that template, so that its own token
+// pass (TrimBlocks/LStripBlocks) has run (C15)
+//@ func (*Template).ExecuteBlocks
+//@   at mapupdate requires {C10} @the-most-derived-rendering-of-a-block-is-kept !has(m, k)
+//@   invariant 3 {C10,C15} @context-prepared-for-this-template ctx != nil ==> lastarg("(*Template).newContextForExecution", 0) == t
+//@   at (*NodeWrapper).Execute requires {C10,C15} @rendered-in-a-context-prepared-for-its-template lastarg("(*Template).newContextForExecution", 0) == t && arg1 == ctx && ctx != nil
+//@ func (*FSLoader).Get
+//@   propagates {C11} @a-failure-is-passed-on *
+//@   flag inline
+//@ func NewLocalFileSystemLoader
+//@   propagates {C11} @a-failure-is-passed-on *
+//@   flag inline
+//@ func (*LocalFilesystemLoader).SetBaseDir
+//@   propagates {C11} @a-failure-is-passed-on *
+//@   flag inline
+//@ func (*LocalFilesystemLoader).Get
+//@   propagates {C11} @a-failure-is-passed-on *
+//@   flag inline
+//@ func NewSandboxedFilesystemLoader
+//@   propagates {C11} @a-failure-is-passed-on *
+//@   flag inline
+//@ func NewHttpFileSystemLoader
+//@   propagates {C11} @a-failure-is-passed-on *
+//@   flag inline
+//@ func (*HttpFilesystemLoader).Get
+//@   propagates {C11} @a-failure-is-passed-on *
+//@   flag inline
+//@ func (*TemplateSet).BanTag
+//@   propagates {C20} @a-failure-is-passed-on *
+//@ func (*TemplateSet).BanFilter
+//@   propagates {C20} @a-failure-is-passed-on *
+//@ func (*TemplateSet).FromCache
+//@   propagates {C20} @a-failure-is-passed-on *
+//@ func (*TemplateSet).FromString
+//@   propagates {C20} @a-failure-is-passed-on *
+//@ func (*TemplateSet).FromBytes
+//@   propagates {C20} @a-failure-is-passed-on *
+//@ func (*TemplateSet).FromFile
+//@   propagates {C20} @a-failure-is-passed-on *
+//@ func (*nodeFilteredVariable).Execute
+//@   propagates {C08} @a-failure-is-passed-on *
+//@ func (*variableResolver).Execute
+//@   propagates {C08} @a-failure-is-passed-on *
+//@ func (*stringResolver).Execute
+//@   propagates {C08} @a-failure-is-passed-on *
+//@ func (*intResolver).Execute
+//@   propagates {C08} @a-failure-is-passed-on *
+//@ func (*floatResolver).Execute
+//@   propagates {C08} @a-failure-is-passed-on *
+//@ func (*boolResolver).Execute
+//@   propagates {C08} @a-failure-is-passed-on *
+//@ func (*nodeVariable).Execute
+//@   propagates {C08} @a-failure-is-passed-on *
+//@ func (*variableResolver).Evaluate
+//@   propagates {C08} @a-failure-is-passed-on *
+//@   flag inline
+//@ func (*nodeFilteredVariable).Evaluate
+//@   propagates {C08} @a-failure-is-passed-on *
+//@ func (*Parser).parseArray
+//@   propagates {C08} @a-failure-is-passed-on *
+//@ func (*Parser).parseVariableOrLiteral
+//@   propagates {C08} @a-failure-is-passed-on *
+//@ func (*Parser).parseVariableOrLiteralWithFilter
+//@   propagates {C08} @a-failure-is-passed-on *
+//@ func (*Parser).parseVariableElement
+//@   propagates {C08} @a-failure-is-passed-on *
+
+// ---- number literals (C07): an integer literal is read in base ten ("010" is ten, not eight), a literal with a
+// fraction as the decimal number its two halves spell ----
+//@ spec DecimalInt(s string) int
+//@ spec DecimalFloat(s string) float64
+//@ extern strconv.Atoi(s) (r0, r1)
+//@   ensures r1 == nil ==> r0 == DecimalInt(s)
+//@ extern strconv.ParseInt(s, base, bitSize) (r0, r1)
+//@   ensures (r1 == nil && base == 10) ==> r0 == DecimalInt(s)
+//@ extern strconv.ParseFloat(s, bitSize) (r0, r1)
+//@   ensures (r1 == nil && bitSize == 64) ==> r0 == DecimalFloat(s)
+//@ func (*Parser).parseVariableOrLiteral
+//@   at store[intResolver.val] requires {C07} @an-integer-literal-is-read-in-base-ten v == DecimalInt(t.Val)
+//@   at store[floatResolver.val] requires {C07} @a-literal-with-a-fraction-is-the-decimal-number-it-spells v == lastresult("strconv.ParseFloat")
+
+// ---- context keys (C12): a key that is not an identifier is rejected ----
+// ASSUMED (package initialisation): reIdentifiers is ^[a-zA-Z0-9_]+$ - what it matches is an identifier, and an
+// identifier has at least one character
+//@ spec IsIdentifier(s string) bool
+//@ axiom forall s string :: IsIdentifier(s) ==> len(s) > 0
+//@ extern (*regexp.Regexp).MatchString(re, s) (r0)
+//@   ensures re == reIdentifiers ==> r0 == IsIdentifier(s)
+//@ writers {C12} G|reIdentifiers init
+//@ func (Context).checkForValidIdentifiers
+//@   invariant 0 {C12} @every-key-seen-so-far-is-an-identifier forall k string :: seen[k] ==> IsIdentifier(k)
+//@   ensures {C12} @only-identifiers-are-accepted r0 == nil ==> (forall k string :: has(c, k) ==> IsIdentifier(k))
+
+// ---- date / time filters (C18): every time.Time is formatted, whatever its value (the zero time included);
+// anything that is not a time.Time is refused ----
+//@ func filterDate
+//@   ensures {C18} @every-time-value-is-formatted typeis(VInterface(in), "time.Time") ==> (r1 == nil && r0 != nil)
+//@   ensures {C18} @anything-else-is-refused !typeis(VInterface(in), "time.Time") ==> r1 != nil
+//@   at AsValue requires {C18} @formatted-with-the-given-layout typeis(i, "string") && unbox(i, "string") == lastresult("(time.Time).Format")
+//@   at (time.Time).Format requires {C18} @the-input-time-and-the-layout-written arg1 == VString(param)
+
+// ---- the loaders of a set and their order (C11: the first loader that has a name wins; C04: rendering leaves the
+// set as it was): the list is written by NewSet and AddLoader only, never by a lookup ----
+//@ writers {C04,C11} F|TemplateSet|loaders NewSet (*TemplateSet).AddLoader
+//@ writers {C04,C11} E|Int|TemplateLoader NewSet (*TemplateSet).AddLoader
+
+// ---- an error's position is one piece of information (C16): the reported token is the token found at the reported
+// line and column ----
+//@ type Error
+//@   invariant {C16} self.Token != nil ==> (self.Line == self.Token.Line && self.Column == self.Token.Col)
+//@ func (*Error).updateFromTokenIfNeeded
+//@   ensures {C16} @token-and-position-are-taken-together-or-not-at-all (old(e.Token) == nil && old(e.Line) <= 0) ==> (e.Token == t && e.Line == t.Line && e.Column == t.Col)
+//@   ensures {C16} @an-error-that-has-a-position-keeps-it !(old(e.Token) == nil && old(e.Line) <= 0) ==> (e.Token == old(e.Token) && e.Line == old(e.Line) && e.Column == old(e.Column))
+// The position of a token of the referring template is stamped on errors that come without one; this is done in
+// the places listed here, each of which has been looked at: the error of a loader that cannot find or read a file
+// names that file (Error.Filename), so the stamped position is not inside the named source (recorded, C16).
+//@ callers {C16} (*Error).updateFromTokenIfNeeded (*filterCall).Execute tagImportParser tagIncludeParser (*tagMacroNode).call tagSSIParser
+//@ func tagIncludeParser
+//@   at (*Error).updateFromTokenIfNeeded#0 requires {C16} @the-stamped-position-lies-in-the-source-the-error-names arg0.Token != nil || arg0.Line > 0 || arg0.Filename == "" || arg0.Filename == arg2.Filename
+//@ func tagImportParser
+//@   at (*Error).updateFromTokenIfNeeded requires {C16} @the-stamped-position-lies-in-the-source-the-error-names arg0.Token != nil || arg0.Line > 0 || arg0.Filename == "" || arg0.Filename == arg2.Filename
+//@ func tagSSIParser
+//@   at (*Error).updateFromTokenIfNeeded#0 requires {C16} @the-stamped-position-lies-in-the-source-the-error-names arg0.Token != nil || arg0.Line > 0 || arg0.Filename == "" || arg0.Filename == arg2.Filename
+//@   at (*Error).updateFromTokenIfNeeded#1 requires {C16} @the-stamped-position-lies-in-the-source-the-error-names arg0.Filename == ""
+//@   at (*Error).updateFromTokenIfNeeded#2 requires {C16} @the-stamped-position-lies-in-the-source-the-error-names arg0.Filename == ""
